@@ -516,3 +516,8 @@ def test_K14_proxy_objects_do_not_prime_the_type_cache():
 def test_K15_reading_a_list_takes_no_collection_lock():
     r = _run_script("k15_list_read_takes_lock.py")
     assert r.returncode == 0, r.stdout + r.stderr
+
+
+def test_K16_failed_enter_of_backend_context_leaves_no_trace():
+    r = _run_script("k16_enter_raises_stays_buffered.py")
+    assert r.returncode == 0, r.stdout + r.stderr
